@@ -236,6 +236,9 @@ def run_scenario(sc, verbose=False, complete_at=None):
     for s in surv[1:]:
         if net.runs_full(s) != want:
             fails.append(("survivors-differ", "survivors hold different partial runs"))
+    for (node, _i), err in getattr(net, "main_errors", {}).items():
+        fails.insert(0, ("run-loop-died", "instance %d: %s escaped _update() while a well-formed message was dispatched: its run() "
+                                          "thread ends and nothing that arrives later is applied" % (node, err)))
     fails += wire_checks(net, k)
     # completion: the completing events go to the restarted instance (or, for the reference, to a survivor)
     target = k if complete_at is None else complete_at
@@ -261,7 +264,7 @@ def work(sc):
     return dict(fails=fails[:4], nontrivial=r["nontrivial"])
 
 
-FINISH = {"abc": [2, 3], "two": [2, 3, 5, 6], "loop": [2, 3], "strict": [2, 3], "mix": [2, 3, 5, 6]}
+FINISH = {"abc": [2, 3], "two": [2, 3, 5, 6], "loop": [2, 3], "strict": [2, 3], "mix": [2, 3, 5, 6], "opt4": [4], "loop4": [4]}
 D10_SCENARIO = dict(pat="two", n=2, finish=[2, 3, 5, 6],
                     acts=[["in", 0, 1], ["in", 0, 4], ["out", 0], ["upd", 1], ["restart", 1], ["in", 0, 5],
                           ["outinj2", 0, "send", 1]])
@@ -291,6 +294,13 @@ def oracle_scenarios(ctx):
             for pt in SN.POINTS:
                 sc.append(dict(pat="mix", n=n, finish=FINISH["mix"],
                                acts=base + [["restart", 1]] + own + [["outinj2", 0, pt, 1], ["upd", 0], ["out", 0], ["upd", 1]]))
+    # the survivor's run has skipped an optional block (its position is ahead of the number of events it holds)
+    for n in (2, 3):
+        for pat, ins in (("opt4", [1, 3]), ("loop4", [1, 2, 2, 4]), ("loop4", [1, 2, 4]), ("opt4", [1, 2, 3])):
+            base = [["in", 0, d] for d in ins] + [["out", 0], ["out", 0]] + [["upd", x] for x in range(1, n)]
+            for k in (0, 1):
+                sc.append(dict(pat=pat, n=n, finish=FINISH[pat], acts=base + [["restart", k]]))
+                sc.append(dict(pat=pat, n=n, finish=FINISH[pat], acts=base[:len(ins)] + [["restart", k]] + base[len(ins):]))
     # the restarted instance's first attempts fail (link down / failure reported after delivery): the announcement must
     # still accompany the first message that gets through
     for n in (2, 3):
@@ -323,8 +333,8 @@ def oracle_scenarios(ctx):
                 sc.append(dict(pat="two", n=n, acts=seq[:p] + [["restart", k]] + seq[p:], finish=FINISH["two"]))
     for _ in range(300 if ctx.quick else 8000):
         n = rng.choice((2, 3))
-        pat = rng.choice(("two", "abc", "loop", "strict"))
-        hi = 6 if pat == "two" else 3
+        pat = rng.choice(("two", "abc", "loop", "strict", "opt4", "loop4"))
+        hi = 6 if pat == "two" else 4 if pat in ("opt4", "loop4") else 3
         acts = []
         for _k in range(rng.randint(3, 12)):
             r, i = rng.random(), rng.randrange(n)
